@@ -629,6 +629,13 @@ func runC01(c *Ctx) {
 	if !okCopy {
 		o.Fail(writeTo.Pos(), "WriteTo does not copy the payload into the chunk")
 	}
+	// every successful WriteTo has handed a chunk to the network (also for an empty payload)
+	if ok, bad := mustPassU(entryPos(writeTo), func(in ssa.Instruction) bool { return isSuccessReturnOf(in, 1) }, func(in ssa.Instruction) bool {
+		cl, ok := in.(*ssa.Call)
+		return ok && cl.Call.IsInvoke() && cl.Call.Method.Name() == "write"
+	}); !ok {
+		o.Fail(bad.Pos(), "WriteTo reports success on a path that has not handed the datagram to the network: it is silently lost")
+	}
 	// every NAT translation deep-clones: Clone copies userData into a fresh slice
 	if cl := p.Func("vnet", "chunkUDP", "Clone"); cl != nil {
 		ok2 := false
